@@ -145,6 +145,9 @@ func GenGenuine(r *rand.Rand, w *World, o GenOpts) *Genuine {
 		a.IssueInstant = sim.S(randInstant(r, w.Now.Add(-time.Duration(r.IntN(100))*time.Second)))
 		a.NameID = sim.S(val("user" + fmt.Sprint(r.IntN(1000)) + "@example.org"))
 		a.Confs[0].InResponseTo = rec.InResponseTo
+		if r.IntN(4) == 0 {
+			a.Confs[0].InResponseTo = nil // optional in the confirmation data, whatever the Response says
+		}
 		a.Confs[0].NotOnOrAfter = sim.S(randInstant(r, w.Now.Add(time.Duration(1+r.IntN(600))*time.Second)))
 		a.Cond.NotBefore = sim.S(randInstant(r, w.Now.Add(-time.Duration(r.IntN(600))*time.Second)))
 		a.Cond.NotOnOrAfter = sim.S(randInstant(r, w.Now.Add(time.Duration(1+r.IntN(600))*time.Second)))
@@ -280,9 +283,16 @@ func SPFor(r *rand.Rand, w *World, signer *sim.Cert) (*saml2.SAMLServiceProvider
 	var sp *saml2.SAMLServiceProvider
 	var clk *SpyClock
 	var st *SpyStore
-	if w.Pool != nil && r != nil && r.IntN(2) == 0 {
+	how := 0
+	if w.Pool != nil && r != nil {
+		how = r.IntN(4)
+	}
+	switch {
+	case how == 3 && w.Pool.sp != nil:
+		sp, clk, st = w.Pool.Copy(w.Now, store...)
+	case how >= 2:
 		sp, clk, st = w.Pool.Get(w.Now, store...)
-	} else {
+	default:
 		sp, clk, st = NewSP(w.Now, store...)
 	}
 	sp.SPKeyStore = &RSAKeyStore{C: w.SPEnc}
